@@ -1,31 +1,56 @@
 #!/bin/bash
 # tools/confirm_seeded.sh <out-dir> [<out-dir>...]
-# For every <out-dir>/m*/patch.diff (produced by a seeding sub-agent): apply it in a scratch worktree of /repo's HEAD
-# (outside /repo and /verif), build and run the repository's whole test suite with the verification cfg OFF, and write
-# <out-dir>/m*/confirm.json {applies, builds, tests_pass, failed_tests}. The scratch worktree is /tmp/seed-confirm
-# (created on demand, target dir kept between patches for incremental builds; remove it with `tools/confirm_seeded.sh --clean`).
+# For every <out-dir>/m*/patch.diff (produced by a seeding sub-agent): in a scratch worktree of /repo's HEAD
+# (outside /repo and /verif) confirm independently of the sub-agent that
+#   1. demo.diff alone applies and the demonstration (demo_cmd.txt) PASSES on the unchanged tree,
+#   2. patch.diff applies, the workspace builds and the repository's whole test suite passes with the
+#      verification cfg OFF (the demonstration is not part of that run),
+#   3. with patch.diff + demo.diff the demonstration FAILS.
+# Writes <out-dir>/m*/confirm.json {applies, builds, tests_pass, failed_tests, demo_passes_without, demo_fails_with, repo_head}.
+# The scratch worktree is /tmp/seed-confirm (created on demand, target dir kept between patches for incremental
+# builds; remove it with `tools/confirm_seeded.sh --clean`).
 set -u
 W=/tmp/seed-confirm
 if [ "${1:-}" = "--clean" ]; then git -C /repo worktree remove --force $W 2>/dev/null; rm -rf $W; exit 0; fi
 [ -d $W ] || git -C /repo worktree add -q --detach $W HEAD || exit 2
+git -C $W checkout -q -- . ; git -C $W clean -qfd -e target
 git -C $W checkout -q --detach "$(git -C /repo rev-parse HEAD)" || exit 2
+export CARGO_NET_OFFLINE=true
+clean() { git -C $W checkout -q -- . && git -C $W clean -qfd -e target; }
 for out in "$@"; do
   for d in "$out"/m*/; do
+    d=${d%/}
     [ -f "$d/patch.diff" ] || continue
-    git -C $W checkout -q -- . && git -C $W clean -qfd -e target
-    applies=false; builds=false; pass=false; failed=""
+    clean
+    applies=false; builds=false; pass=false; failed=""; demo_without=null; demo_with=null
+    cmd=""; [ -f "$d/demo_cmd.txt" ] && cmd=$(grep -v '^\s*$' "$d/demo_cmd.txt" | head -1)
+    # 1. demonstration on the unchanged tree
+    if [ -n "$cmd" ] && [ -f "$d/demo.diff" ] && git -C $W apply --check "$d/demo.diff" 2>/dev/null; then
+      git -C $W apply "$d/demo.diff"
+      if (cd $W && timeout 1800 bash -c "$cmd" >"$d/confirm-demo-without.log" 2>&1); then demo_without=true; else demo_without=false; fi
+      clean
+    fi
+    # 2. whole suite with the change
     if git -C $W apply --check "$d/patch.diff" 2>/dev/null; then
       applies=true; git -C $W apply "$d/patch.diff"
-      if (cd $W && CARGO_NET_OFFLINE=true cargo test --workspace --no-run --offline >"$d/confirm-build.log" 2>&1); then
+      if (cd $W && cargo test --workspace --no-run --offline >"$d/confirm-build.log" 2>&1); then
         builds=true
-        (cd $W && CARGO_NET_OFFLINE=true cargo test --workspace --no-fail-fast --offline >"$d/confirm-test.log" 2>&1)
+        (cd $W && cargo test --workspace --no-fail-fast --offline >"$d/confirm-test.log" 2>&1)
         rc=$?
-        failed=$(grep -E "^test .* FAILED$|^    [a-z_:]+$" "$d/confirm-test.log" | grep FAILED | awk '{print $2}' | sort -u | tr '\n' ' ')
+        failed=$(grep -E "^test .* FAILED$" "$d/confirm-test.log" | awk '{print $2}' | sort -u | tr '\n' ' ')
         [ $rc -eq 0 ] && pass=true
       fi
+      # 3. demonstration with the change
+      if [ -n "$cmd" ] && [ -f "$d/demo.diff" ] && git -C $W apply --check "$d/demo.diff" 2>/dev/null; then
+        git -C $W apply "$d/demo.diff"
+        if (cd $W && timeout 1800 bash -c "$cmd" >"$d/confirm-demo-with.log" 2>&1); then demo_with=false; else
+          # a failure must be a test failure, not a build error
+          if grep -qE "^error(\[|:)|could not compile" "$d/confirm-demo-with.log" && ! grep -q "test result: FAILED" "$d/confirm-demo-with.log"; then demo_with=null; else demo_with=true; fi
+        fi
+      fi
     fi
-    printf '{"applies": %s, "builds": %s, "tests_pass": %s, "failed_tests": "%s", "repo_head": "%s"}\n' $applies $builds $pass "$failed" "$(git -C /repo rev-parse --short HEAD)" > "$d/confirm.json"
+    printf '{"applies": %s, "builds": %s, "tests_pass": %s, "failed_tests": "%s", "demo_passes_without": %s, "demo_fails_with": %s, "repo_head": "%s"}\n' $applies $builds $pass "$failed" $demo_without $demo_with "$(git -C /repo rev-parse --short HEAD)" > "$d/confirm.json"
     echo "$d $(cat "$d/confirm.json")"
   done
 done
-git -C $W checkout -q -- . && git -C $W clean -qfd -e target
+clean
